@@ -300,6 +300,7 @@ func init() {
 			refEnv := env.clone()
 			useLib := it%3 == 1 && !rawClash
 			var libEnv pipeline.InterpolationEnv
+			rawInitBefore := fmt.Sprint(rawInit)
 			if useLib {
 				libEnv = pipeline.VerifEnvFromMap(!ci, rawInit)
 				stat("C10", "library-env")
@@ -320,6 +321,12 @@ func init() {
 			}()
 			if panicked != "" {
 				oracleFail("C10", "panic", c, panicked)
+				continue
+			}
+			// results are written back into the caller's ENVIRONMENT; the map that environment was once built from
+			// is not the environment
+			if useLib && fmt.Sprint(rawInit) != rawInitBefore {
+				oracleFail("C10", "source-map-written", c, fmt.Sprintf("the map the environment was built from changed: %s -> %v", rawInitBefore, rawInit))
 				continue
 			}
 			want, werr := c10reference(prefer, refEnv, block)
